@@ -1,5 +1,5 @@
 (** C15 (proved part) — proofs: each modelled emission is invariant under permutation of the hash collection's
-    iteration order; the two MoonBit loops without an ordering step are not. *)
+    iteration order; an emission loop without an ordering step is not. *)
 From Coq Require Import List String Ascii NArith Bool Permutation Sorted Lia.
 From WB Require Import Core.Determinism.
 Import ListNotations.
